@@ -1102,6 +1102,7 @@ theorem runAction_returns {rs : List Resp} {r : Reply} {s : Nat}
   | raiseAlias c => rw [ha] at hret; cases hret
   | raiseDefault => rw [ha] at hret; cases hret
   | raiseUnhandled => rw [ha] at hret; cases hret
+  | raiseCatchAll => rw [ha] at hret; cases hret
 
 theorem runAction_isReturn_not_raised {rs : List Resp} {r : Reply} {a : Action} (h : a.isReturn = true) :
     ∀ cls st w why, runAction rs r a ≠ .raised cls st w why := by
